@@ -60,7 +60,7 @@ PROPS = {
         "runner": "checklib/run/tools_c38.py",
         "gen": ["tools_autotrait"],
         "timeout": 1500,
-        "level_text": "PARTIAL. Static part, kernel-checked: an executable Lean model of Rust's auto-trait derivation (struct/enum: all fields; rules for Arc, Mutex, RwLock, Cell/RefCell, references, owning containers; leaf table for std/third-party types; generic definitions monomorphised; recursion handled coinductively as the greatest consistent assignment, with a general monotonicity/greatest-fixpoint lemma) is evaluated by decide +kernel on the field graph of EmmyLuaAnalysis extracted from the source text on every run (217 instantiated types): every component type is Send and Sync by derivation from its fields, EmmyLuaAnalysis included, and no type the analysis holds carries a manual unsafe impl. The derivation is cross-checked with rustc through hook H6 in both directions (positive assertions for all component types, negative ones for the rowan cursor types); a disagreement breaks the harness build or the Lean theorems. Dynamic part (search): many threads query one shared Arc<EmmyLuaAnalysis> (diagnostics + semantic info of every name token of every file) simultaneously; answers equal the sequential ones.",
+        "level_text": "PARTIAL. Static part, kernel-checked: an executable Lean model of Rust's auto-trait derivation (struct/enum: all fields; rules for Arc, Mutex, RwLock, Cell/RefCell, references, owning containers; leaf table for std/third-party types; generic definitions monomorphised; recursion handled coinductively as the greatest consistent assignment, with a general monotonicity/greatest-fixpoint lemma) is evaluated by decide +kernel on the field graph of EmmyLuaAnalysis extracted from the source text on every run (217 instantiated types): every component type is Send and Sync by derivation from its fields, EmmyLuaAnalysis included, and no type the analysis holds carries a manual unsafe impl; the list of shared mutable state reachable from &EmmyLuaAnalysis (every Mutex/RwLock/Atomic/Cell/RefCell/OnceLock field of a reachable type, every mutable static / thread_local of the two crates), extracted on every run, must be contained in a justified allow-list (empty on this tree) — so a new shared cache breaks the bridge even when rustc is satisfied. The derivation is cross-checked with rustc through hook H6 in both directions (positive assertions for all component types, negative ones for the rowan cursor types); a disagreement breaks the harness build or the Lean theorems. Dynamic part (search): 10-16 threads query one shared Arc<EmmyLuaAnalysis> in lock-step (a barrier before every call, so calls really overlap): diagnose_file alone, then diagnostics + semantic info of every name token, then free-running; half of the workspaces consist of 8-14 byte-identical copies of a template (typed table literals with wrong fields at the same offsets, unused locals, undefined globals, parameter mismatches, ...) plus near-identical variants, the others are cross-file workspaces; every answer and the total diagnostic count must equal the sequential ones.",
         "level_note": "Partial: data races inside unsafe code of dependencies (rowan green tree, smol_str, internment, hashbrown, regex) are not modelled — these types are leaves with the verdict their crates declare; thread interleavings of the real runtime are searched, not proved. SemanticModel (per query, not held by the analysis) is not Send/Sync by derivation and keeps its unsafe impl: outside the claim, recorded in notes. Trusted: Lean kernel, the python extractor (struct/enum parser, leaf table), rustc for the H6 assertions.",
         "trusted_base": TOOLS_TB + ["checklib/gen/tools_autotrait.py: Rust struct/enum/alias field extractor and the leaf/container table (std, rowan, smol_str, internment, regex, lsp types)"],
         "assumptions": [
